@@ -1,11 +1,13 @@
 import CJ.Drv.Loop
 import CJ.Drv.ConnHandler
 import CJ.Drv.RelayClock
+import CJ.Drv.ConnStation
 /-! Driver for C04: the connection-handler model (`conn|…` lines) and the relay's deadlines on a
-virtual clock (`relayclock|…` lines). -/
+virtual clock (`relayclock|…` lines), and the station across connections (`connseq|…` lines). -/
 open CJ.Drv
 
 def main : IO Unit := runDriver fun
   | "conn" :: args => ConnHandler.handle args
   | "relayclock" :: args => RelayClock.handle args
+  | "connseq" :: args => ConnStation.handle args
   | _ => none
